@@ -87,6 +87,10 @@ def bases():
         # back-references): nested dict keys, and a keyword name that is also a dict key
         38: [(({_K1: {_K1: 1}},), {}, ''), (({_K1: {_K2: 1}},), {}, ''), (({_K2: {_K1: 1}},), {}, '')],
         39: [(({_K1: 2},), {_K1: 3}, ''), (({_K2: 2},), {_K1: 3}, '')],
+        # tables that differ only in NaN versus None (versus the text 'None') in one MixedColumn cell
+        40: [((_dm({'a': [1, float('nan')]}),), {}, '')],
+        41: [((_dm({'a': [1, None]}),), {}, '')],
+        42: [((_dm({'a': [1, 'None']}),), {}, '')],
     }
     return B
 
@@ -230,7 +234,7 @@ class C20:
     rule = ('seeded call histories (4-12 operations quick, 10-40 thorough) over 1-4 memoize instances wrapping one '
             'body: every combination of persistent x key(None/explicit) x lazy x max_size(1 GiB, 0, below one value, '
             '1-4 values) is used as first instance, further instances share or do not share one of 3 temp folders; '
-            'operations: call with one of 40 argument classes (int/float/bool/str/None scalars, positional pairs, '
+            'operations: call with one of 43 argument classes (int/float/bool/str/None scalars, positional pairs, '
             'lists vs tuples (same class), nested containers, dicts, keyword forms, unicode, DataMatrix values equal / '
             'differing in one cell / one column name / row order / column type), thunk variants in lazy instances, '
             'clear(), new instance (constructed directly or through memoize(**options)(fnc)); the returned object is '
@@ -343,6 +347,11 @@ class C20:
         return forms[fi % len(forms)][2]
 
     def rerun(self, inp):
+        if 'probe' in inp:
+            for c in self._lazy_nameless_probes():
+                if c['input']['probe'] == inp['probe']:
+                    return c
+            return None
         ops = inp['ops']
         trace, observed, sizes, pyfail, evicted = self._run(ops)
         tr = L.lst(trace)
@@ -472,7 +481,57 @@ class C20:
         for _ in range(600 if tier == 'quick' else 2500):
             ops = self._history(rng, None, maxlen, both)
             cases.append(self.rerun({'ops': ops, 'tags': ['random']}))
+        cases.extend(self._lazy_nameless_probes())
         return cases
+
+    def _lazy_nameless_probes(self):
+        """lazy=True with callables that have no __name__ (functools.partial, callable objects): they are evaluated only
+        when the body runs -- once on a miss, never on a hit -- and the call returns what the unwrapped body returns."""
+        import functools
+        from datamatrix import functional as fnc
+        out = []
+        for kind in ('partial', 'object', 'partial_persistent'):
+            problem = None
+            base = os.environ.get('VERIF_WORK') or '/verif/.work'
+            root = os.path.join(base, 'c20-lazy-%d' % os.getpid())
+            shutil.rmtree(root, ignore_errors=True)
+            try:
+                evals = [0]
+
+                def produce(v):
+                    evals[0] += 1
+                    return v
+
+                class Thunk(object):
+                    def __call__(self):
+                        return produce(5)
+                arg = Thunk() if kind == 'object' else functools.partial(produce, 5)
+                runs = [0]
+
+                def body(x):
+                    runs[0] += 1
+                    return [x, 'r']
+                g = fnc.memoize(body, lazy=True, persistent=(kind == 'partial_persistent'), folder=root)
+                r1 = g(arg)
+                e1, n1 = evals[0], runs[0]
+                r2 = g(arg)
+                e2, n2 = evals[0], runs[0]
+                if r1 != [5, 'r'] or r2 != [5, 'r']:
+                    problem = 'lazy call with a nameless callable returned %r then %r' % (r1, r2)
+                elif (n1, n2) != (1, 1):
+                    problem = 'body ran %d then %d times in total' % (n1, n2)
+                elif e1 != 1:
+                    problem = 'the callable argument was evaluated %d times for one execution of the body' % e1
+                elif e2 != 1:
+                    problem = 'the callable argument was evaluated again (%d in total) on a cache hit' % e2
+            except Exception as e:      # noqa: BLE001
+                problem = 'lazy call with a nameless callable raised %r' % (e,)
+            finally:
+                shutil.rmtree(root, ignore_errors=True)
+            out.append({'input': {'probe': 'lazy_nameless_' + kind}, 'observed': {'problem': problem}, 'pyfail': problem,
+                        'oracle': 'true', 'model': 'true', 'nontrivial': True, 'sig': 'probe|lazy_nameless|' + kind,
+                        'tags': ['probe', 'probe:lazy_nameless']})
+        return out
 
     def _scenario(self, rng):
         bs = sorted(self._B)
@@ -519,6 +578,8 @@ class C20:
 
     # ---- shrinking / identification -----------------------------------------
     def shrink_candidates(self, inp):
+        if 'probe' in inp:
+            return
         ops = inp['ops']
         for i in range(len(ops) - 1, -1, -1):
             if ops[i][0] != 'new':
@@ -533,6 +594,8 @@ class C20:
 
     def key(self, case):
         import json
+        if 'probe' in case['input']:
+            return 'memoize probe ' + case['input']['probe']
         return 'memoize ' + json.dumps(case['input']['ops'], separators=(',', ':'), sort_keys=True)
 
 
